@@ -146,6 +146,8 @@ class C03(common.Spec):
                         return True
                     base_ns[k] = decoy
                 cls = type('GenFSM', (edzed.FSM,), base_ns)
+                if len(names) % 2:
+                    cls = type('MidFSM', (cls,), {})      # sometimes one more (empty) level in between
                 cls = type('SubFSM', (cls,), {k: ns[k] for k in over})
             else:
                 cls = type('GenFSM', (edzed.FSM,), ns)
